@@ -18,9 +18,9 @@ static bool hist_write(const std::string &p, const std::string &data) { FILE *f 
 static std::string hexv(const std::vector<uint8_t> &v, size_t max = 48) { return x86::hex(v.data(), std::min(v.size(), max)) + (v.size() > max ? " ..." : ""); }
 
 // ===================================================================== C06
-struct C06Case { std::vector<std::string> lines; std::vector<int> cuts; int start = 0, prefill = 0, combo = DEFAULT_COMBO; bool noise = false; uint64_t pre = 0; int sep = 0 /*0 LF 1 CRLF 2 CR*/; int tight = 0; /* 1..3: the caller buffer ends 20, 21, 22 bytes behind the start of the last instruction (the least the reserve rule allows) */ };
-static std::string ser06(const C06Case &c) { std::string s = "C06|" + std::to_string(c.start) + "|" + std::to_string(c.prefill) + "|" + std::to_string(c.combo) + "|" + (c.noise ? "1" : "0") + ":" + std::to_string(c.pre) + ":" + std::to_string(c.sep) + ":" + std::to_string(c.tight) + "|"; for (size_t i = 0; i < c.cuts.size(); i++) s += (i ? "," : "") + std::to_string(c.cuts[i]); for (auto &l : c.lines) s += "|" + l; return s; }
-static bool parse06(const std::string &s, C06Case &c) { auto f = split(s, '|'); if (f.size() < 7 || f[0] != "C06") return false; c.start = atoi(f[1].c_str()); c.prefill = atoi(f[2].c_str()); c.combo = atoi(f[3].c_str()); { auto g = split(f[4], ':'); c.noise = g[0] == "1"; c.pre = g.size() > 1 ? strtoull(g[1].c_str(), nullptr, 10) : 0; c.sep = g.size() > 2 ? atoi(g[2].c_str()) : 0; c.tight = g.size() > 3 ? atoi(g[3].c_str()) : 0; } c.cuts.clear(); for (auto &x : split(f[5], ',')) if (!x.empty()) c.cuts.push_back(atoi(x.c_str())); c.lines.assign(f.begin() + 6, f.end()); return true; }
+struct C06Case { std::vector<std::string> lines; std::vector<int> cuts; int start = 0, prefill = 0, combo = DEFAULT_COMBO; bool noise = false; uint64_t pre = 0; int sep = 0 /*0 LF 1 CRLF 2 CR*/; int tight = 0; /* 1..3: the caller buffer ends 20, 21, 22 bytes behind the start of the last instruction (the least the reserve rule allows) */ int far = 0; /* 1..3: also on the library-managed buffer from a far offset; bit 0 debug listing on, bit 1 chunk fitting with a size never reached */ };
+static std::string ser06(const C06Case &c) { std::string s = "C06|" + std::to_string(c.start) + "|" + std::to_string(c.prefill) + "|" + std::to_string(c.combo) + "|" + (c.noise ? "1" : "0") + ":" + std::to_string(c.pre) + ":" + std::to_string(c.sep) + ":" + std::to_string(c.tight) + ":" + std::to_string(c.far) + "|"; for (size_t i = 0; i < c.cuts.size(); i++) s += (i ? "," : "") + std::to_string(c.cuts[i]); for (auto &l : c.lines) s += "|" + l; return s; }
+static bool parse06(const std::string &s, C06Case &c) { auto f = split(s, '|'); if (f.size() < 7 || f[0] != "C06") return false; c.start = atoi(f[1].c_str()); c.prefill = atoi(f[2].c_str()); c.combo = atoi(f[3].c_str()); { auto g = split(f[4], ':'); c.noise = g[0] == "1"; c.pre = g.size() > 1 ? strtoull(g[1].c_str(), nullptr, 10) : 0; c.sep = g.size() > 2 ? atoi(g[2].c_str()) : 0; c.tight = g.size() > 3 ? atoi(g[3].c_str()) : 0; c.far = g.size() > 4 ? atoi(g[4].c_str()) : 0; } c.cuts.clear(); for (auto &x : split(f[5], ',')) if (!x.empty()) c.cuts.push_back(atoi(x.c_str())); c.lines.assign(f.begin() + 6, f.end()); return true; }
 
 struct HV { bool ok = true; std::string symptom, detail; };
 static void fill(std::vector<uint8_t> &b, int kind, uint64_t seed) { hz::Rng r(seed); for (auto &x : b) x = kind == 0 ? 0x00 : kind == 1 ? 0xff : (uint8_t)r.next(); }
@@ -71,11 +71,11 @@ static HV check06(const C06Case &c) {
     for (int i = 0; i < c.start; i++) if (buf[i] != before[i]) return bad("prefix-touched", "byte " + std::to_string(i) + " before the starting offset was modified");
     if (rep == 0) first = got; else if (got != first) return bad("not-repeatable", "repetition " + std::to_string(rep) + " differs");
   }
-  // a quarter of the cases also on the library-managed buffer, from an offset far behind its initial length, with the debug listing on and/or
+  // cases with `far` set (a quarter) also on the library-managed buffer, from an offset far behind its initial length, with the debug listing on and/or
   // chunk fitting enabled with a chunk size the program never reaches; pieces without any instruction are calls of their own
   unsigned sel = (unsigned)(c.lines.size() * 7 + c.start + c.combo);
-  if (sel % 4 == 1 && !c.lines.empty()) {
-    bool dbg = (sel >> 2) & 1, fit = (sel >> 3) & 1; if (!dbg && !fit) dbg = fit = true;
+  if (c.far && !c.lines.empty()) {
+    bool dbg = c.far & 1, fit = c.far & 2;
     int saved = -1; if (dbg) { fflush(stdout); saved = dup(1); int nul = open("/dev/null", O_WRONLY); if (nul >= 0) { dup2(nul, 1); close(nul); } }
     struct Restore { int fd; ~Restore() { if (fd >= 0) { fflush(stdout); dup2(fd, 1); close(fd); } } } restore{saved};
     int far = 6020 + 980 * (1 + (int)(sel % 5)) + (int)(sel % 7);
@@ -107,6 +107,7 @@ void prop_c06(hz::Ctx &ctx) {
     for (size_t i = 0; i < R.size(); i++) for (size_t j = 0; j < R.size(); j++) {
       if (!ctx.take()) continue;
       C06Case c; c.lines = {P.lines[R[i]], P.lines[R[j]]}; c.combo = (int)((i * 7 + j * 3 + ctx.seed) % 12); c.start = (int)((i + j) % 5 == 0 ? (i * 13 + j) % 4096 : 0); c.prefill = (int)((i + j) % 3); if ((i ^ j) & 1) c.cuts = {1}; if ((i + 2 * j) % 5 == 0) { c.tight = 1 + (int)((i + j) % 3); c.noise = (i & 2) != 0; c.sep = (int)(j % 3); }
+      if ((i * 3 + j) % 4 == 1) c.far = 1 + (int)((i + j) % 3);
       std::string id = ser06(c); if (!ctx.begin(id, c.lines[0] + " / " + c.lines[1])) continue;
       ctx.cls("part:ordered-pairs"); ctx.nontrivial(std::to_string(R[i]) + "," + std::to_string(R[j]));
       HV v = check06(c);
@@ -127,7 +128,7 @@ void prop_c06(hz::Ctx &ctx) {
       if (!ctx.take()) continue;
       C06Case c; c.sep = sep; c.combo = (int)((e + sep + shape + ctx.seed) % 12); c.start = (int)((e * 5 + shape) % 3 == 0 ? 40 + e : 0); c.prefill = (int)(e % 3);
       c.lines = shape == 0 ? std::vector<std::string>{edge[e]} : shape == 1 ? std::vector<std::string>{edge[e], o1} : shape == 2 ? std::vector<std::string>{o1, edge[e], o2} : std::vector<std::string>{o2, edge[(e + 1) % edge.size()], edge[e]};
-      if (cutv && c.lines.size() > 1) c.cuts = {1}; c.noise = (e + shape) % 4 == 0;
+      if (cutv && c.lines.size() > 1) c.cuts = {1}; c.noise = (e + shape) % 4 == 0; if ((e + sep + shape + cutv) % 4 == 1) c.far = 1 + (int)((e + shape) % 3);
       std::string id = ser06(c); if (!ctx.begin(id, join(c.lines, "\\n").substr(0, 300))) continue;
       ctx.cls("part:window-filling-lines"); ctx.cls(sep == 0 ? "newline:lf" : sep == 1 ? "newline:crlf" : "newline:cr"); ctx.nontrivial(id);
       HV v = check06(c);
@@ -158,16 +159,16 @@ void prop_c06(hz::Ctx &ctx) {
     }
   }
   // (2) random longer programs, all ways of splitting, start offsets, prefill (rapidcheck, shrinking)
-  auto gen_case = rc::gen::apply([&P](std::vector<int> idx, std::vector<bool> cutflags, int start, int prefill, int combo, bool noise, int pre, int sep) {
-    C06Case c; if (idx.empty()) idx.push_back(0);
+  auto gen_case = rc::gen::apply([&P](std::vector<int> idx, std::vector<bool> cutflags, int start, int prefill, int combo, bool noise, int pre, int sep, int farsel) {
+    C06Case c; if (idx.empty()) idx.push_back(0); c.far = farsel >= 9 ? farsel - 8 : 0;
     for (int i : idx) c.lines.push_back(P.lines[(size_t)i % P.lines.size()]);
     for (size_t k = 1; k < c.lines.size() && k < cutflags.size(); k++) if (cutflags[k]) c.cuts.push_back((int)k);
     c.start = start; c.prefill = prefill; c.combo = combo; c.noise = noise; c.pre = pre % 2 ? (uint64_t)pre : 0; c.sep = sep < 6 ? 0 : sep < 9 ? 1 : 2; c.tight = (pre >> 3) % 4 == 0 ? 1 + (pre >> 5) % 3 : 0; return c; },
-    rc::gen::container<std::vector<int>>(range(0, 1 << 20)), rc::gen::container<std::vector<bool>>(rc::gen::arbitrary<bool>()), range(0, 4097), range(0, 3), range(0, 12), rc::gen::arbitrary<bool>(), range(0, 1 << 20), range(0, 11));
+    rc::gen::container<std::vector<int>>(range(0, 1 << 20)), rc::gen::container<std::vector<bool>>(rc::gen::arbitrary<bool>()), range(0, 4097), range(0, 3), range(0, 12), rc::gen::arbitrary<bool>(), range(0, 1 << 20), range(0, 11), range(0, 12));
   rc_rounds(ctx, "C06-programs", ctx.thorough() ? 600000 : 80000, 200, [&]() {
     C06Case c = *gen_case;
     std::string id = ser06(c); if (!ctx.begin(id, join(c.lines, "\\n").substr(0, 300))) return;
-    ctx.cls("part:programs"); ctx.cls(c.cuts.empty() ? "calls:one" : "calls:split"); if (c.start) ctx.cls("start:nonzero"); if (c.pre) ctx.cls("instance:previous-life"); if (c.sep) ctx.cls(c.sep == 1 ? "newline:crlf" : "newline:cr"); if (c.tight) ctx.cls("buffer:ends-with-the-reserve"); if (c.noise) ctx.cls("non-code-lines");
+    ctx.cls("part:programs"); ctx.cls(c.cuts.empty() ? "calls:one" : "calls:split"); if (c.start) ctx.cls("start:nonzero"); if (c.pre) ctx.cls("instance:previous-life"); if (c.sep) ctx.cls(c.sep == 1 ? "newline:crlf" : "newline:cr"); if (c.tight) ctx.cls("buffer:ends-with-the-reserve"); if (c.noise) ctx.cls("non-code-lines"); if (c.far) ctx.cls("also:library-managed-far-offset");
     if (c.lines.size() >= 2) ctx.nontrivial(id);
     HV v = check06(c);
     if (ctx.want_sample()) ctx.put_sample(std::to_string(c.lines.size()) + " lines, " + std::to_string(c.cuts.size() + 1) + " calls, start " + std::to_string(c.start) + ", first line \"" + c.lines[0] + "\" -> " + (v.ok ? "concatenation" : v.symptom));
